@@ -49,6 +49,9 @@ def _equiv_job(job):
         except spec.PhasesTouched:
             ctx.prove("equivalence modulo signs must not read the signs", 0)
             return {}
+        except Exception as e:
+            ctx.prove("is_equivalent_mod_phase raised %s" % type(e).__name__, 0)
+            return {}
         rl = core.litof(r) if not isinstance(r, (bool, np.bool_)) else int(bool(r))
         same = land_all([_in_span(XA, ZA, [XB[q][j] for q in range(n)], [ZB[q][j] for q in range(n)]) for j in range(n)])
         ctx.prove("is_equivalent_mod_phase is true exactly when both generate the same group up to signs", leq(rl, same))
@@ -135,8 +138,12 @@ def _entangled_job(job):
         ctx = Ctx.cur
         X, Z = spec.sym_tableau(n, prefix="a")
         ctx.assume(spec.valid(X, Z))
-        A = spec.make_stabilizer(st, *spec.to_symarrays(X, Z), poison_phases=True)
-        r = A.is_qubit_entangled(q)
+        A = spec.make_stabilizer(st, *spec.to_symarrays(X, Z), phases=symnp.sym_vector("sg", n))
+        try:
+            r = A.is_qubit_entangled(q)
+        except Exception as e:
+            ctx.prove("is_qubit_entangled raised %s" % type(e).__name__, 0)
+            return {"q": q}
         # definition: q is a tensor factor  <=>  the group contains a weight-one element supported on q
         alts = []
         for a in range(1, 2 ** n):
@@ -170,6 +177,7 @@ def run(tier, seed):
     ck.bounds += ["is_equivalent_mod_phase: both tableaux fully symbolic and valid (independent spec): n=2 one query, n=3 all 64 partitions of A's first generator (complete), n=4: %d seeded partitions (20 of A's 32 bits fixed, B free) of 2^20" % (32 if tier == "quick" else 400),
                   "expand(): tableau fully symbolic (no validity needed), n=2..6, plus a second symbolic stabilizer expanded afterwards (history)",
                   "is_qubit_entangled: tableau symbolic and valid, every qubit, n=2..%d" % ne]
+    ck.bounds += ["native side condition (concrete, n=2..6): seeded remixed-equal pairs and near-miss pairs (one extra gate on the last qubits) vs brute-force group comparison"]
     ck.outside += ["is_equivalent_mod_phase for n>=5 and most of n=4 (GF(2) dimension arguments are hard for CDCL: 100 s timeouts without 20 fixed bits), is_qubit_entangled for n>%d (solver time)" % ne, "signs (the predicates are modulo signs; the sign vector is poisoned)"]
     ck.assumptions += ["validity via the independent Boolean spec"]
     import random
@@ -201,6 +209,47 @@ def run(tier, seed):
     ck.vacuity_twin("equivalence harness: both answers are reachable under the assumptions", twins)
     ck.vacuity_twin("entanglement harness: both answers occur", both)
     ck.candidates(cands[:20])
+    # native side condition (machine integers, n up to 6): remixed-equal pairs and near-miss pairs (one extra gate) vs
+    # brute-force group comparison
+    import random as _r
+    from qiskit import QuantumCircuit
+    rr = _r.Random(seed + 77)
+    stn0 = loader.native("stabilizer")
+    nat = 0
+    for n in range(2, 7):
+        for t in range(12 if tier == "quick" else 60):
+            qc = QuantumCircuit(n)
+            for _ in range(3 * n):
+                g = rr.choice(["h", "s", "cx", "cz"])
+                if g in ("cx", "cz"):
+                    a, b = rr.sample(range(n), 2)
+                    getattr(qc, g)(a, b)
+                else:
+                    getattr(qc, g)(rr.randrange(n))
+            A = stn0.Stabilizer(qc)
+            qc2 = qc.copy()
+            if t % 2:
+                g = rr.choice(["h", "s", "cz"])
+                if g == "cz":
+                    a, b = rr.sample(range(max(0, n - 3), n), 2) if n >= 3 else (0, 1)
+                    qc2.cz(a, b)
+                else:
+                    getattr(qc2, g)(rr.randrange(max(0, n - 2), n))
+            Bm = stn0.Stabilizer(qc2)
+            Bmix = spec.random_invertible(n, rr)
+            RB = (Bm.R.astype(int) @ np.array(Bmix)) % 2
+            SB = (Bm.S.astype(int) @ np.array(Bmix)) % 2
+            B = stn0.Stabilizer((RB.astype(np.int8), SB.astype(np.int8)))
+            got = bool(A.is_equivalent_mod_phase(B))
+            want = _group(A.R.tolist(), A.S.tolist()) == _group(RB.tolist(), SB.tolist())
+            ck.obligations += 1
+            nat += 1
+            if got == want:
+                ck.discharged += 1
+            else:
+                ck.candidate("native equiv n=%d %s %s" % (n, A.R.tolist(), RB.tolist()), dict(kind="equiv", n=n, RA=A.R.tolist(), SA=A.S.tolist(), RB=RB.tolist(), SB=SB.tolist()),
+                             "native is_equivalent_mod_phase says %s for two %d-qubit groups that are %s" % (got, n, "equal" if want else "different"))
+    ck.validated += nat
     # different qubit counts => False (concrete)
     stn = loader.native("stabilizer")
     ck.obligations += 1
